@@ -56,8 +56,10 @@ def enc(v):
         return v
     if isinstance(v, float):
         return {"$float": repr(v)}
-    if isinstance(v, (list, tuple)):
+    if isinstance(v, list):
         return [enc(x) for x in v]
+    if isinstance(v, tuple):
+        return {"$tuple": [enc(x) for x in v]}
     if isinstance(v, (set, frozenset)):
         try:
             items = sorted(v)
@@ -82,6 +84,8 @@ def dec(j):
             return Truthy() if j["$other"] else Falsy()
         if list(j) == ["$set"]:
             return set(dec(x) for x in j["$set"])
+        if list(j) == ["$tuple"]:
+            return tuple(dec(x) for x in j["$tuple"])
         return dict((k, dec(x)) for k, x in j.items())
     return j
 
@@ -99,6 +103,10 @@ def to_model(j, key=None):
             if key in SET_AS_LIST:
                 return [to_model(x) for x in j["$set"]]
             return {"$other": bool(j["$set"])}
+        if list(j) == ["$tuple"]:
+            if key in SET_AS_LIST:
+                return [to_model(x) for x in j["$tuple"]]
+            return {"$other": bool(j["$tuple"])}
         if list(j) in (["$float"], ["$other"]):
             return j
         return dict((k, to_model(x, k)) for k, x in j.items())
